@@ -59,7 +59,7 @@ ASSUMPTIONS = {
 
 NAMES = ["a", "b", "c", "x", "y", "g", "items", "count", "filter", "nrow", "copy", "a b", "1x",
          "ünï", "_p", "values"]
-FUNCTIONAL = {"filter", "filter_out", "slice", "slice_off", "head", "tail", "sample", "drop_na",
+FUNCTIONAL = {"compare", "filter", "filter_out", "slice", "slice_off", "head", "tail", "sample", "drop_na",
               "unique", "sort", "select", "unselect", "rename", "modify", "cbind", "rbind",
               "update", "join", "aggregate", "count", "copy", "deepcopy", "clear", "convert"}
 INPLACE = {"setitem", "delete", "pop", "popitem", "set_colnames", "group_by", "elem_write"}
@@ -266,6 +266,9 @@ class World:
             return lambda x: x.nrow
         if c == "group_vec":
             return lambda x: np.arange(x.nrow)
+        if c == "group_frac":
+            # an integer for single-row groups, a float for the others
+            return lambda x: x.nrow if x.nrow == 1 else x.nrow + 0.5
         if c == "group_badlen":
             return lambda x: np.arange(x.nrow + 2)
         if c == "mutate":
@@ -616,6 +619,17 @@ class World:
         f = self.frames[h]
         return self.run_functional(op, lambda: f.clear(), [h])
 
+    def op_compare(self, op):
+        h, o = op["t"], op["other"]
+        f, g = self.frames[h], self.frames[o]
+        res = [None]
+
+        def call():
+            out = f.compare(g, *op["by"])
+            res[0] = out
+            return out[0] if isinstance(out, tuple) and isinstance(out[0], self.di.DataFrame) else None
+        return self.run_functional(op, call, [h, o])
+
     def op_map(self, op):
         h = op["t"]
         f = self.frames[h]
@@ -875,7 +889,24 @@ class World:
             return f.modify(**kw)
         if op.get("group"):
             self.snaps[h] = (self.snaps[h][0], tuple(op["group"]))
-        info = self.run_functional(op, call, [h], c09=c09 if op["defined"] else None)
+        gcheck = None
+        if op.get("group") and all(s_.get("c") == "group_frac" for n_, s_ in pairs) and \
+                all(gn in f for gn in op["group"]):
+            keys = list(zip(*[M.col_values(dict.__getitem__(f, gn)) for gn in op["group"]])) if f.nrow else []
+            if all(not isinstance(v, (list, dict)) and v is not None for k in keys for v in k):
+                sizes = {}
+                for k in keys:
+                    sizes[k] = sizes.get(k, 0) + 1
+                want = [float(sizes[k]) if sizes[k] == 1 else sizes[k] + 0.5 for k in keys]
+
+                def gcheck(res):
+                    for n_, s_ in pairs:
+                        got = M.col_values(dict.__getitem__(res, n_))
+                        if len(got) != len(want) or any(g_ is None or float(g_) != w for g_, w in zip(got, want)):
+                            return [("modified-column-value", f"grouped modify: column {n_!r} holds {got!r}, "
+                                     f"the group-wise results are {want!r}")]
+                    return []
+        info = self.run_functional(op, call, [h], c09=gcheck or (c09 if op["defined"] else None))
         if expect_reject:
             self.probes["rejected_length"] += 1
             if not info["raised"]:
@@ -934,6 +965,16 @@ class World:
         def c09(res):
             bad = []
             got = list(dict.keys(res))
+            if res.nrow != f.nrow:
+                self.viol("C01", "broadcast", "C01.broadcast|update|row-count-changed",
+                          f"update of a {f.nrow}-row frame with a {g.nrow}-row frame gave {res.nrow} rows")
+            elif not same_rows:
+                for n in tg:
+                    v = M.col_values(dict.__getitem__(g, n))[0]
+                    if n in res and not self.logical_equal(dict.__getitem__(res, n), [v] * f.nrow):
+                        self.viol("C01", "broadcast", "C01.broadcast|update|length-one-value-not-broadcast",
+                                  f"column {n!r} of the 1-row operand should be {v!r} x {f.nrow}")
+                        break
             untouched = [n for n in dict.keys(f) if n not in tg]
             if [n for n in got if n in untouched] != untouched:
                 return [("untouched-order", f"untouched columns {untouched!r} reordered/lost in {got!r}")]
@@ -947,7 +988,13 @@ class World:
                     if M.snap_column(dict.__getitem__(res, n)) != tg[n]:
                         return [("replaced-column-value", f"column {n!r} is not other's column")]
             return bad
-        return self.run_functional(op, lambda: f.update(g), [h, o], c09=c09 if defined else None)
+        info = self.run_functional(op, lambda: f.update(g), [h, o], c09=c09 if defined else None)
+        if dict.keys(f) and dict.keys(g) and g.nrow not in (f.nrow, 1):
+            self.probes["rejected_length"] += 1
+            if not info["raised"]:
+                self.viol("C01", "reject", "C01.reject|update|length-mismatch-accepted",
+                          f"update accepted a {g.nrow}-row frame for a {f.nrow}-row frame")
+        return info
 
     def op_rbind(self, op):
         h = op["t"]
@@ -1286,6 +1333,11 @@ class World:
             if not dict.keys(obj):
                 self.probes["render_zero_col"] += 1
         out = io.StringIO()
+        if op.get("minimal_stdout") and how != "print_":
+            class MinimalOut:
+                def write(self_, data):
+                    return len(data)
+            out = MinimalOut()
         try:
             with contextlib.redirect_stdout(out):
                 if how == "str":
@@ -1363,7 +1415,7 @@ class Gen:
             "rows": ["filter", "filter_out", "slice", "slice_off", "head", "tail", "sample",
                      "drop_na", "unique", "sort"],
             "struct": ["select", "unselect", "rename", "modify", "cbind", "rbind", "update"],
-            "rel": ["join", "aggregate", "count", "split", "map"],
+            "rel": ["join", "aggregate", "count", "split", "map", "compare"],
             "copy": ["copy", "deepcopy", "clear", "convert"],
             "vector": ["vec"],
             "inplace": ["setitem", "setitem", "delete", "pop", "popitem", "set_colnames",
@@ -1688,7 +1740,8 @@ class Gen:
             op.pop("fault", None)
         if r.random() < 0.15 and cols:
             op["group"] = [r.choice(cols)]
-            kinds = ["nrow", "group_vec", "mutate"] + (["group_badlen"] if r.random() < self.fault_rate * 2 else [])
+            kinds = ["nrow", "group_vec", "mutate", "group_frac", "group_frac"] + \
+                (["group_badlen"] if r.random() < self.fault_rate * 2 else [])
             op["pairs"] = [[n, {"c": r.choice(kinds)}] for n, s in op["pairs"]]
         return op
 
@@ -1722,6 +1775,14 @@ class Gen:
             op["by"] = [[r.choice(a), r.choice(b)]]
         else:
             op["by"] = ["a"]
+        return op
+
+    def g_compare(self):
+        op = self.base("compare")
+        op["other"] = self.pick(nonempty=True)
+        a, b = self.cols_of(op["t"]), self.cols_of(op["other"])
+        both = [n for n in a if n in b]
+        op["by"] = [self.rng.choice(both)] if both else ["a"]
         return op
 
     def g_aggregate(self):
@@ -1891,6 +1952,8 @@ class Gen:
         r = self.rng
         x = r.random()
         op = {"op": "render", "how": r.choice(["str", "repr", "to_string", "to_string", "print_"])}
+        if r.random() < 0.15:
+            op["minimal_stdout"] = True      # the application replaced sys.stdout by a bare writer
         if x < 0.62 and self.w.live():
             op["target"] = "frame"
             op["t"] = self.pick(nonempty=False)
